@@ -408,6 +408,20 @@ func (f *frame) unop(x *ssa.UnOp) {
 		v := vc.define(x.Name(), vc.sortOf(t), f.loadAt(f.val(x.X), t, f.st))
 		f.assume(vc.typeFacts(v, t, f.st))
 		f.vals[x] = Val{t: v}
+		if g, isG := x.X.(*ssa.Global); isG && g.Pkg != nil {
+			if im := vc.eng.cs.Immutables[g.Pkg.Pkg.Path()+"::"+g.Name()]; im != nil {
+				// declared immutable: its contents are the initial ones at every read (no store to it exists: checked statically)
+				if _, isSl := t.Underlying().(*types.Slice); isSl {
+					h := vc.lookup(f.st, elemHeapName(types.Typ[types.Byte]), "(Array Int (Array Int Int))")
+					cs := []string{eq(sLen(v), num(int64(len(im.Bytes)))), not(eq(sArr(v), "0"))}
+					for k := 0; k < len(im.Bytes); k++ {
+						cs = append(cs, eq(sx(vc.eltFn("Int"), h, v, num(int64(k))), num(int64(im.Bytes[k]))))
+					}
+					f.assume(and(cs...))
+					vc.assumed["package variable "+g.Name()+" is never modified after initialisation (no store to it in the module: checked; aliasing of its backing array: assumed)"] = true
+				}
+			}
+		}
 	case token.SUB:
 		if isFloat(x.Type()) {
 			f.setVal(x, x.Type(), sx("-", f.term(x.X)))
